@@ -27,6 +27,7 @@ type Variant struct {
 	Withhold int           `json:"withhold"` // child whose history is withheld from the datasource, -1 none
 	Filter   int           `json:"filter"`   // -1: no ChildFilter; -2: filter rejecting every child; x>=0: filter accepting only child x
 	KeepRefs bool          `json:"keep_refs"` // deleted parent versions keep the previous child list (unannotated)
+	Reversed bool          `json:"reversed"`  // the datasource returns every history newest version first
 	When     int           `json:"-"`         // at which states the search evaluates the variant (main.go)
 }
 
@@ -55,7 +56,7 @@ type ann struct {
 	Lat, Lon float64
 }
 
-var sentinel = ann{Ver: 77, CS: 777, Lat: 7.5, Lon: -7.5}
+var sentinel = ann{Ver: 7777, CS: 777, Lat: 7.5, Lon: -7.5}
 
 // parents is the library-facing view of the parent versions (ways or relations).
 type parents struct {
@@ -492,7 +493,7 @@ func (t *truth) compare(p *parents, times []time.Time, out []finding) []finding 
 				}
 				if k >= s.hi {
 					shape := "extra"
-					if k < len(vers) || u.Version > len(vers) {
+					if k < len(vers) {
 						shape = "extra/from-next-parent-or-later"
 					}
 					add("updates", shape, fmt.Sprintf("parent v%d index %d (%v): unexpected update %s; updates %v", pvi.Version, j, s.child, fmtUpdate(u), fmtUpdates(ups)))
